@@ -8,7 +8,23 @@ PY = "/venv/bin/python"
 ALL = ["C%02d" % i for i in range(1, 21)]
 
 # property -> (category, technique, text, note, design_ref)
+LISTING_NOTE = (
+    "Trusted: gtirb, gtirb_layout, gtirb_functions, capstone, mcasm/LLVM as single-instruction encoders, Python. "
+    "Bounded: module shapes, patch templates and modification-set sizes as stated in the evidence file; nothing is "
+    "claimed beyond them. Known findings (known_findings.json) are matched by discrepancy signature, never by property."
+)
+
 CLAIMED = {
+    "C01": (
+        "exploration",
+        "bounded exhaustive enumeration of (module shape x non-overlapping modification sets x registration orders) executed on the real RewritingContext, compared with a listing-edit reference model",
+        "Every module shape of the alphabet (2-3 code/data blocks, two interval partitions, 5 ISA/format targets) x every "
+        "non-overlapping set of <= N edit atoms at every instruction boundary x registration orders is applied with the real "
+        "RewritingContext; section bytes must equal the bytes of the listing edited by plain list surgery, with expected patch "
+        "bytes taken from an instruction table validated against capstone (not from the Assembler). Complete for the stated bound.",
+        LISTING_NOTE,
+        "DESIGN.md 3, 6/C01",
+    ),
     "C20": (
         "model_checking",
         "explicit-state BFS over operation histories of the real containers against reference models (fixpoint for 4 universes, depth-bounded for ReferenceCache)",
